@@ -17,7 +17,7 @@ namespace h
     {
         MAXT = 8,       // worker threads per case
         MAIN_ID = MAXT, // logical id of the case's main thread
-        MAXEV = 1 << 16
+        MAXEV = 1 << 18
     };
 
     // ------------------------------------------------------------------ per-thread context
